@@ -181,7 +181,7 @@ int main(void)
      * pending at a larger distance */
     if (dist_order_seen > 0 && s1 < N1) VWITNESS("spq: lower-priority task at a smaller distance selected before a higher-priority one further away");
 #else
-    if (ties_seen > 0 && s1 >= 1 && s1 < N1 && prio[N1] > prio[0]) VWITNESS("tie between pending tasks and a later ring with a higher priority");
+    if (ties_seen > 0 && (N1 >= 2 ? (s1 >= 1 && s1 < N1) : s1 == 1) && prio[N1] > prio[0]) VWITNESS("tie between pending tasks and a later ring with a higher priority");
 #endif
     return 0;
 }
